@@ -46,6 +46,33 @@ pub fn run(tier: &str, seed: u64, dir: &str) {
                 sink.case(&op, &eval(&op), "dlsettings-sweep", true);
             }
         }
+        // credentials: an attempt with one set fails (or succeeds), the next join uses another set —
+        // the JoinRequest, the accepted JoinAccept and the session keys must follow the set of the
+        // attempt in progress; an accept under the previous set's key changes nothing
+        for (a, b) in [(0usize, 1usize), (1, 0), (0, 2), (2, 1), (1, 1)] {
+            for first_succeeds in [false, true] {
+                let mut h = Hist::new("C11", region, 20, 0, rng.next() & 0xffff, &[], None);
+                h.go_live();
+                h.root = CREDS[a].2;
+                h.ev(&if a == 0 { "otaa".to_string() } else { format!("otaa {}", a) });
+                if first_succeeds {
+                    let acc = build_join_accept(&CREDS[a].2, 0x0100_00a0, 0, 1, &CfDesc::None);
+                    h.rx_bytes("rx1", 0, &acc, None).snap().send(1, false, &[1]).timeout();
+                } else {
+                    h.timeout();
+                }
+                h.root = CREDS[b].2;
+                h.ev(&if b == 0 { "otaa".to_string() } else { format!("otaa {}", b) });
+                if a != b {
+                    let stale = build_join_accept(&CREDS[a].2, 0x0100_00a1, 0, 1, &CfDesc::None);
+                    h.rx_bytes("rx1", 0, &stale, None);
+                }
+                let acc = build_join_accept(&CREDS[b].2, 0x0100_00b0, 0x12, 2, &CfDesc::None);
+                h.rx_bytes("rx2", 0, &acc, None).snap().send(1, false, &[2]).timeout().snap();
+                let op = h.done();
+                sink.case(&op, &eval(&op), "credential-change", true);
+            }
+        }
         let n = if thorough { 2000 } else { 120 };
         for _ in 0..n {
             let mut o = Opts::default();
@@ -58,5 +85,5 @@ pub fn run(tier: &str, seed: u64, dir: &str) {
     }
     // device level: both front-ends with the scripted radio (see adevgen::add_dev_classes)
     crate::adevgen::add_dev_classes("C11", &mut rng, &mut sink, thorough, eval);
-    sink.finish(dir, "per region: all 256 DLSettings bytes x RxDelay {0,1,2,15} x CFList {none, type 0 with in-band/zero/out-of-band frequencies, type 1 mask, RFU type}, arriving in RX1 or RX2 (full grid in thorough, a quarter in quick); random histories of failed attempts, wrong-key accepts and re-joins from a joined state. The JoinRequest is checked against the §6.2.4 layout and its MIC, the session keys against the §6.2.5 derivation. Non-trivial = every case.", false, serde_json::json!({}));
+    sink.finish(dir, "per region: all 256 DLSettings bytes x RxDelay {0,1,2,15} x CFList {none, type 0 with in-band/zero/out-of-band frequencies, type 1 mask, RFU type}, arriving in RX1 or RX2 (full grid in thorough, a quarter in quick); joins with changing credential sets after failed and successful attempts; random histories of failed attempts, wrong-key accepts and re-joins from a joined state. The JoinRequest is checked against the §6.2.4 layout and its MIC, the session keys against the §6.2.5 derivation. Non-trivial = every case.", false, serde_json::json!({}));
 }
